@@ -14,9 +14,10 @@ pub enum TraceItem {
     Bias(i32),
     /// `(feature description, quantised weight)` of a boundary feature (zero weights included)
     Feature(String, i32),
-    /// `(token, tag category, class, quantised bias)` of a tag classifier
+    /// `(token, class offset of the tag category, class, quantised bias)` of a tag classifier
     TagBias(String, usize, usize, i32),
-    /// `(token, tag category, class, feature description, quantised weight)` of a tag feature
+    /// `(token, class offset of the tag category, class, feature description, quantised weight)`
+    /// of a tag feature (zero weights included)
     TagFeature(String, usize, usize, String, i32),
 }
 
